@@ -8,6 +8,30 @@ import tempfile
 from fv import patch, sym, choice
 
 
+def pointwise(fn):
+    """a pure helper applied to finite-choice arguments is evaluated per choice by the REAL function"""
+    def wrapper(*a, **k):
+        if any(isinstance(x, choice.CV) for x in a):
+            return choice.apply(lambda *aa: fn(*aa, **k), *a)
+        return fn(*a, **k)
+    wrapper.__name__ = getattr(fn, "__name__", "pointwise")
+    return wrapper
+
+
+def helper_patches():
+    """pure string helpers of ford.utils (also where sourceform imported them by name)"""
+    import ford.sourceform as sf
+    import ford.utils as fu
+
+    out = {}
+    for name in ("strip_paren", "paren_split", "get_parens", "quote_split"):
+        w = pointwise(getattr(fu, name))
+        out[(fu, name)] = w
+        if hasattr(sf, name):
+            out[(sf, name)] = w
+    return out
+
+
 class FakeReader:
     """stands in for FortranReader: yields the given logical lines (what the reader would
     deliver: stripped statements and `!`+docmark doc lines)"""
@@ -42,6 +66,7 @@ def parse(lines, **settings):
         f.write("! symbolic program\n")
     try:
         extra = {(sf, "FortranReader"): (lambda *a, **k: FakeReader(lines))}
+        extra.update(helper_patches())
         with patch.patched(sf, fu, extra=extra):
             buf = io.StringIO()
             with contextlib.redirect_stdout(buf):
@@ -73,6 +98,81 @@ def parse_concrete(lines, **settings):
         sf.FortranReader = orig
         try:
             os.remove(p)
+            os.rmdir(d)
+        except OSError:
+            pass
+
+
+def project(files, correlate=True, **settings):
+    """Run the real Project (all files parsed by the real parser, reader stubbed) and correlate().
+    files: {basename: [logical lines (str or CV)]}"""
+    import ford.sourceform as sf
+    import ford.utils as fu
+    import ford.fortran_project as fp
+    from ford.settings import ProjectSettings
+
+    d = tempfile.mkdtemp(prefix="fvproj-")
+    try:
+        for name in files:
+            with open(os.path.join(d, name), "w") as f:
+                f.write("! symbolic program\n")
+        extra = {(sf, "FortranReader"): (lambda path, *a, **k: FakeReader(files[os.path.basename(path)]))}
+        extra.update(helper_patches())
+        # the directory enumeration order is not a function of the input: fix it (sorted) so that every
+        # re-execution of the symbolic run visits the files in the same order
+        real_find = fp.find_all_files
+        extra[(fp, "find_all_files")] = lambda st_: sorted(real_find(st_))
+        with patch.patched(sf, fu, fp, extra=extra):
+            buf = io.StringIO()
+            with contextlib.redirect_stdout(buf), contextlib.redirect_stderr(buf):
+                st = ProjectSettings(src_dir=[__import__("pathlib").Path(d)], dbg=False, preprocess=False, quiet=True, parallel=0, **settings)
+                p = fp.Project(st)
+                if correlate:
+                    p.correlate()
+            return p
+    finally:
+        for name in files:
+            try:
+                os.remove(os.path.join(d, name))
+            except OSError:
+                pass
+        try:
+            os.rmdir(d)
+        except OSError:
+            pass
+
+
+def project_concrete(files, correlate=True, **settings):
+    """same, natively (replay)"""
+    import ford.sourceform as sf
+    import ford.fortran_project as fp
+    from ford.settings import ProjectSettings
+
+    d = tempfile.mkdtemp(prefix="fvproj-")
+    orig = sf.FortranReader
+    sf.FortranReader = lambda path, *a, **k: FakeReader(files[os.path.basename(path)])
+    real_find = fp.find_all_files
+    fp.find_all_files = lambda st_: sorted(real_find(st_))
+    try:
+        for name in files:
+            with open(os.path.join(d, name), "w") as f:
+                f.write("! replay\n")
+        buf = io.StringIO()
+        with contextlib.redirect_stdout(buf), contextlib.redirect_stderr(buf):
+            st = ProjectSettings(src_dir=[__import__("pathlib").Path(d)], dbg=False, preprocess=False, quiet=True, parallel=0, **settings)
+            p = fp.Project(st)
+            if correlate:
+                p.correlate()
+        return p
+    finally:
+        sf.FortranReader = orig
+        fp.find_all_files = real_find
+        for name in files:
+            try:
+                os.remove(os.path.join(d, name))
+            except OSError:
+                pass
+        try:
             os.rmdir(d)
         except OSError:
             pass
